@@ -25,6 +25,7 @@ func init() {
 			ruleFacadeRemovals(c, "R11")
 			ruleReservedKeysNotDeletable(c, "R12", []string{"HEAD", "OPTIONS", ""}, "the method set of a pattern loses HEAD only with GET and never loses OPTIONS while another method remains: reserved keys are not deletable by name")
 			ruleOnlyKnownConstantKeys(c, "R13")
+			ruleRootMappedPathsAreNotPatterns(c, "R14")
 		},
 	})
 	register(&Spec{
